@@ -130,7 +130,9 @@ func steps() []step {
 	add("edge:a-other->[b]", func(d *sbom.Document) {
 		nl(d).Edges = append(nl(d).Edges, &sbom.Edge{From: "a", Type: sbom.Edge_other, To: []string{"b"}})
 	})
-	add("edge:a-999->[b]", func(d *sbom.Document) { nl(d).Edges = append(nl(d).Edges, &sbom.Edge{From: "a", Type: 999, To: []string{"b"}}) })
+	add("edge:a-999->[b]", func(d *sbom.Document) {
+		nl(d).Edges = append(nl(d).Edges, &sbom.Edge{From: "a", Type: 999, To: []string{"b"}})
+	})
 	add("edge:empty", func(d *sbom.Document) { nl(d).Edges = append(nl(d).Edges, &sbom.Edge{}) })
 	for _, r := range []string{"a", "b", "x", ""} {
 		r := r
